@@ -80,7 +80,12 @@ fn maybe_panic(ctx: &Ctx, uid: u32, what: u8) {
         let t = ctx.next_token();
         ctx.fired[uid as usize].fetch_add(1, SeqCst);
         ctx.panic_fired.fetch_add(1, SeqCst);
-        std::panic::panic_any(format!("INJECTED-PANIC uid={} token={}", uid, t));
+        // the payload of a panic is whatever the system chose: a message, or any other value
+        match mix(t, uid as u64) % 8 {
+            0 | 1 => std::panic::panic_any(InjectedPayload { uid, token: t }),
+            2 => std::panic::panic_any(((uid as u64) << 32) | (t & 0xffff_ffff)),
+            _ => std::panic::panic_any(format!("INJECTED-PANIC uid={} token={}", uid, t)),
+        }
     }
 }
 
